@@ -35,6 +35,14 @@ def decode_escapes(s):
     return ESCAPE_SEQUENCE_RE.sub(decode_match, s)
 
 
+def _decode_string_token(t):
+    try:
+        return decode_escapes(t.value[1:-1])
+    except ValueError:
+        # malformed \x, \u, \U or \N{...} escape (UnicodeDecodeError)
+        raise exceptions.YaqlLexicalException(t.value, t.lexpos)
+
+
 # noinspection PyPep8Naming
 class Lexer:
     t_ignore = ' \t\r\n'
@@ -89,10 +97,14 @@ class Lexer:
         """
         \\b\\d+(\\.?\\d+)?\\b
         """
-        if '.' in t.value:
-            t.value = float(t.value)
-        else:
-            t.value = int(t.value)
+        try:
+            if '.' in t.value:
+                t.value = float(t.value)
+            else:
+                t.value = int(t.value)
+        except ValueError:
+            # e.g. more digits than the interpreter converts to int
+            raise exceptions.YaqlLexicalException(t.value, t.lexpos)
         return t
 
     @staticmethod
@@ -120,7 +132,7 @@ class Lexer:
         """
         '([^'\\\\]|\\\\.)*'
         """
-        t.value = decode_escapes(t.value[1:-1])
+        t.value = _decode_string_token(t)
         return t
 
     @staticmethod
@@ -128,7 +140,7 @@ class Lexer:
         """
         "([^"\\\\]|\\\\.)*"
         """
-        t.value = decode_escapes(t.value[1:-1])
+        t.value = _decode_string_token(t)
         t.type = 'QUOTED_STRING'
         return t
 
